@@ -109,6 +109,7 @@ Tokenizer_init(Tokenizer *self, PyObject *args, PyObject *kwds)
     self->route_context = self->route_state = 0;
     self->bad_routes = NULL;
     self->skip_style_tags = 0;
+    self->unterminated_comment = -1;
     return 0;
 }
 
@@ -172,6 +173,7 @@ Tokenizer_tokenize(Tokenizer *self, PyObject *args)
     self->route_context = 0;
     self->head = self->global = self->depth = 0;
     self->skip_style_tags = skip_style_tags;
+    self->unterminated_comment = -1;
     self->bad_routes = NULL;
 
     tokens = Tokenizer_parse(self, context, 1);
